@@ -131,6 +131,27 @@ theorem C08_std_kernel_rejects_empty_range (cx : NumCtx) (sq : Rat → Rat) (poo
 
 theorem C08_std_kernel_addOK (sq : Rat → Rat) : KernAddOK (Kern.std NumCtx.exact sq) := c08r_exact_addOK sq
 
+theorem Uni.c08r_roundSig_nonneg (p : Nat) (x : Rat) (hx : 0 ≤ x) : 0 ≤ roundSig p x := by
+  unfold roundSig
+  split
+  · exact le_refl _
+  · have hn : ¬ x.num < 0 := not_lt.mpr (Rat.num_nonneg.mpr hx)
+    simp only []
+    rw [if_neg hn]
+    split
+    · exact_mod_cast Nat.zero_le _
+    · exact Rat.mkRat_nonneg (Int.natCast_nonneg _) _
+
+/-- … and so is the kernel under CPython's 35-digit arithmetic (what the driver runs): half-even rounding to 35
+    digits keeps signs, so the invariant is not an artefact of the exact context. -/
+theorem C08_py_kernel_addOK : KernAddOK Kern.py :=
+  c08r_std_addOK NumCtx.py _ (fun x hx => Uni.c08r_roundSig_nonneg 35 x hx)
+
+theorem C08_runOps_preserves_range_py (pool : Pool) (minError : Rat) (ops : List Op) (s : State)
+    (h : ∀ p ∈ s.positions, p.lower < p.upper ∧ 0 ≤ p.liq) :
+    ∀ p ∈ (runOps Kern.py pool minError s ops).positions, p.lower < p.upper ∧ 0 ≤ p.liq :=
+  C08_runOps_preserves_range _ C08_py_kernel_addOK pool minError ops s h
+
 /-- so with the code's kernel the invariant needs nothing but the initial state -/
 theorem C08_runOps_preserves_range_std (sq : Rat → Rat) (pool : Pool) (minError : Rat) (ops : List Op) (s : State)
     (h : ∀ p ∈ s.positions, p.lower < p.upper ∧ 0 ≤ p.liq) :
